@@ -376,6 +376,7 @@ func (c *catalogue) colContext(t *Table, col *Column) colCtx {
 				x.inOwnFK = true
 				x.ownFKs = append(x.ownFKs, f.Name)
 				x.setNullFK = x.setNullFK || f.OnDelete == "SET NULL" || f.OnUpdate == "SET NULL"
+				x.textUsed = x.textUsed || c.d == SQLite && isUint(f.Name) // pinned: see fkEdits
 			}
 		}
 	}
@@ -983,15 +984,18 @@ func (c *catalogue) fkEdits(t *Table) {
 	}
 	for _, f := range t.FKs {
 		fn := f.Name
-		c.add("fk.drop", n, fn, "", []Desc{{Kind: "DropForeignKey", Table: n, Object: fn}}, func(m *Model) {
-			tt := m.Table(n)
-			for i, x := range tt.FKs {
-				if x.Name == fn {
-					tt.FKs = append(tt.FKs[:i], tt.FKs[i+1:]...)
-					return
+		positional := c.d == SQLite && isUint(fn) // a position, not a name: only its actions are edited here
+		if !positional {
+			c.add("fk.drop", n, fn, "", []Desc{{Kind: "DropForeignKey", Table: n, Object: fn}}, func(m *Model) {
+				tt := m.Table(n)
+				for i, x := range tt.FKs {
+					if x.Name == fn {
+						tt.FKs = append(tt.FKs[:i], tt.FKs[i+1:]...)
+						return
+					}
 				}
-			}
-		})
+			})
+		}
 		nullable := true
 		for _, col := range f.Cols {
 			nullable = nullable && t.Column(col).Null
@@ -1017,6 +1021,9 @@ func (c *catalogue) fkEdits(t *Table) {
 					}
 				})
 			}
+		}
+		if positional {
+			continue
 		}
 		if len(f.Cols) == 1 {
 			r := m.Table(f.RefTable)
